@@ -13,12 +13,12 @@ from harness.props import c11 as C11
 
 RULE = ("elements, substances (formula string or dict of elements) and materials (1..5 substances, dict or '<..>' "
         "string, every norm_type) with a mass density or a number density (sometimes both) and optionally a volume, "
-        "log-uniform positive values, each given in a randomly chosen compatible unit and a second time in another "
+        "log-uniform positive values, a quarter of the composites modified after construction with add() of a present component, each given in a randomly chosen compatible unit and a second time in another "
         "unit; corpus first. non-trivial = at least two components and a volume or a non-standard unit; distinct = "
         "canonical JSON of the case")
 ASSUMPTIONS = [
     "positive finite densities, volumes, proportions; at least one density is attached (volume alone is outside the property)",
-    "Element objects are used with the default proportion 1",
+    "an Element with proportion p is the one-component composite (p, atomic mass): its formula unit has mass p*m",
     "unit magnitudes (factor of a unit in g/cm3, cm-3, cm3; Da in g) are read from the live unit tables; the correctness of linear conversion is property C04",
     "component masses are read from data_components() / component_mass (their correctness is C10)",
     "floats are compared with relative tolerance 1e-9 to exact rational values",
@@ -66,7 +66,8 @@ def gen_case(rng, nat, allsym):
     syms = nat if natural else allsym
     r = rng.random()
     if r < 0.12:
-        case = {"kind": "element", "expr": rng.choice(syms), "natural": natural}
+        case = {"kind": "element", "expr": rng.choice(syms), "natural": natural,
+                "proportion": rng.choice([1, 1, 2, 3, 5, 12])}
     elif r < 0.4:
         f = rng.choice(C11.POOL) if rng.random() < 0.6 else C11.rand_formula(rng, syms)
         case = {"kind": "substance", "formula": f, "natural": natural, "via": rng.choice(["string", "string", "dict"])}
@@ -98,6 +99,15 @@ def gen_case(rng, nat, allsym):
     case["rho"] = q("rho", ru, 1e-6, 30.0) if g < 0.5 or g > 0.93 else None
     case["n"] = q("n", nu, 1e15, 1e24) if g >= 0.5 else None
     case["vol"] = q("vol", vu, 1e-3, 1e9) if rng.random() < 0.6 else None
+    if case["kind"] != "element" and rng.random() < 0.25:
+        # the object is modified after construction: add() of an already present (or, for
+        # substances, sometimes a new) component; _norm runs again
+        case["then_add"] = [rng.randrange(8), rng.choice([1, 2, 3, 0.5, 0.25, 10])]
+    if rng.random() < 0.03:
+        # a volume without any density: outside the property (the constructor raises: None * Quantity);
+        # only impl vs model is compared
+        case["rho"], case["n"] = None, None
+        case["vol"] = q("vol", vu, 1e-3, 1e9)
     return case
 
 
@@ -114,16 +124,22 @@ def build(case, alt=False):
     if case.get("vol"):
         kw["volume"] = Quantity(case["vol"][i], case["vol"][i + 1])
     if case["kind"] == "element":
-        return Element(case["expr"], natural=case["natural"], **kw)
+        return Element(case["expr"], proportion=case.get("proportion", 1), natural=case["natural"], **kw)
     if case["kind"] == "substance":
         if case.get("via") == "dict":
-            return Substance({s: c for s, c in case["comps"]}, natural=case["natural"], **kw)
-        return Substance(case["formula"], natural=case["natural"], **kw)
-    if case["via"] == "string":
-        expr = " ".join("%.4f <%s>" % (p, f) for f, p in case["comps"])
+            obj = Substance({s: c for s, c in case["comps"]}, natural=case["natural"], **kw)
+        else:
+            obj = Substance(case["formula"], natural=case["natural"], **kw)
     else:
-        expr = {f: p for f, p in case["comps"]}
-    return Material(expr, natural=case["natural"], norm_type=getattr(Norm, case["mode"]), **kw)
+        if case["via"] == "string":
+            expr = " ".join("%.4f <%s>" % (p, f) for f, p in case["comps"])
+        else:
+            expr = {f: p for f, p in case["comps"]}
+        obj = Material(expr, natural=case["natural"], norm_type=getattr(Norm, case["mode"]), **kw)
+    if case.get("then_add"):
+        keys = list(obj.components.keys())
+        obj.add(keys[case["then_add"][0] % len(keys)], case["then_add"][1])
+    return obj
 
 
 def observe(case, obj):
@@ -195,9 +211,21 @@ def request(case, imp):
         ps, ms = imp["p"], imp["m"]
     mode = case.get("mode", "NUMBER") if case["kind"] == "material" else "NUMBER"
     via = "dict" if (case["kind"] in ("material", "substance") and case.get("via") == "dict") else "string"
-    return {"k": "matter", "mode": mode, "comps": [[C11.frac(p), C11.frac(m)] for p, m in zip(ps, ms)],
+    hist = None
+    if case.get("then_add"):
+        # history of component lists seen by _norm: the constructor's, then the modified object
+        idx = case["then_add"][0] % len(ps)
+        orig = [p - (case["then_add"][1] if k == idx else 0) for k, p in enumerate(ps)]
+        if min(orig) <= 0:
+            return None
+        comps0 = [[C11.frac(p), C11.frac(m)] for p, m in zip(orig, ms)]
+        hist = ([comps0[:k + 1] for k in range(len(comps0))] if via == "dict" else []) + [comps0]
+    req = {"k": "matter", "mode": mode, "comps": [[C11.frac(p), C11.frac(m)] for p, m in zip(ps, ms)],
             "da": C11.frac(dalton()), "rho": qpair("rho", case.get("rho")), "n": qpair("n", case.get("n")),
             "vol": qpair("vol", case.get("vol")), "via": via}
+    if hist is not None:
+        req["hist"] = hist
+    return req
 
 
 close = C11.close
@@ -220,6 +248,10 @@ def judge(case, imp, res, imp2=None):
     r = res["ok"]
     if r["model"] == "out-of-domain":
         return viol, dis
+    if not case.get("rho") and not case.get("n"):
+        if ("err" in imp) != (r["model"] == "err"):
+            dis.append(("matter", "volume only: impl %s, model %s" % ("raises" if "err" in imp else "ok", json.dumps(r["model"])[:100])))
+        return viol, dis
     if "err" in imp:
         if mode == "MASS_FRACTION":
             viol.append(("matter:MASS_FRACTION:density", "attaching a density to a MASS_FRACTION material raises: %s" % imp["err"]))
@@ -237,10 +269,14 @@ def judge(case, imp, res, imp2=None):
                      "the attached %s is %r (standard unit) but the object reports %r" % (given, gstd, imp[given])))
     elif hasvol and not close(imp["mass"], imp["rho"] * vstd):
         viol.append(("matter:%s-given:mass" % given, "mass %r is not rho*V = %r" % (imp["mass"], imp["rho"] * vstd)))
-    elif imp["sum"] is not None and not close(imp["sum"]["rho"], imp["rho"]):
-        viol.append(("matter:%s-given:sum_rho" % given, "component mass densities add up to %r, rho is %r" % (imp["sum"]["rho"], imp["rho"])))
-    elif imp["sum"] is not None and hasvol and not close(imp["sum"]["M"], imp["mass"]):
-        viol.append(("matter:%s-given:sum_M" % given, "component masses add up to %r, mass is %r" % (imp["sum"]["M"], imp["mass"])))
+    else:
+        # the 'sum' row where the table has one (composites), the rows themselves otherwise (Element: one row)
+        srho = imp["sum"]["rho"] if imp["sum"] is not None else math.fsum(imp["rho_i"])
+        sM = (imp["sum"]["M"] if imp["sum"] is not None else math.fsum(imp["M_i"])) if hasvol else None
+        if not close(srho, imp["rho"]):
+            viol.append(("matter:%s-given:sum_rho" % given, "component mass densities add up to %r, rho is %r" % (srho, imp["rho"])))
+        elif hasvol and not close(sM, imp["mass"]):
+            viol.append(("matter:%s-given:sum_M" % given, "component masses add up to %r, mass is %r" % (sM, imp["mass"])))
     # ---- oracle: Lean specification (number modes)
     sp = r["spec"]
     if not viol and isinstance(sp, dict):
@@ -322,8 +358,10 @@ def process(ctx, cases):
     for case, imp, imp2, r in zip(cases, imps, imps2, res):
         ctx.case(case, nontrivial(case, imp), case)
         ctx.count("kind.%s" % case["kind"])
-        ctx.count("given.%s%s" % ("rho" if case.get("rho") else "", "n" if case.get("n") else ""))
+        ctx.count("given.%s%s" % ("rho" if case.get("rho") else "", "n" if case.get("n") else "") if (case.get("rho") or case.get("n")) else "given.volume-only")
         ctx.count("volume.%s" % ("yes" if case.get("vol") else "no"))
+        if case.get("then_add"):
+            ctx.count("modified_with_add")
         if case["kind"] == "material":
             ctx.count("mode.%s" % case["mode"])
         if "err" in imp:
